@@ -271,3 +271,89 @@ def search(res, tier, boost=False):
             res.violation('C05:constructor-inexact:%s:%s' % (ctor, '_'.join(map(str, key))),
                           dict(constructor=ctor, key=list(key), degree=bad[0], relative_defect=bad[1], request_number=step,
                                requests_before=seen[-8:], note='requests are made in one process, in this order'))
+
+    # request SWEEP: every degree pair / point count on a grid, tabulated or not.  A request either is refused
+    # (raises) or returns a rule; a rule that is returned must be exact for the class that was REQUESTED
+    # (binary64 tolerance) and well-formed.  On the shipped tables only tabulated keys return.
+    two_fams = (('log_quadrature_rule', 'log'), ('log_log_quadrature_rule', 'loglog'),
+                ('sqrt_quadrature_rule', 'sqrt'), ('sqrtinv_quadrature_rule', 'sqrtinv'))
+    reqset = set(reqs)
+    hi = 45 if (tier == "thorough" or boost) else 33
+    returned = refused = 0
+    for f, cls in two_fams:
+        tab = set(tuple(e['key']) for e in fams.get(f, []))
+        for a in range(0, hi):
+            for b in range(0, hi):
+                if (a, b) in tab:
+                    continue                      # tabulated keys are checked above at both precisions
+                res.count(('sweep', f, a, b), False)
+                try:
+                    got = getattr(QR, f)(a, b)
+                except Exception:
+                    refused += 1
+                    continue
+                returned += 1
+                _check_requested(res, 'C05:request-inexact:%s:%d_%d' % (f, a, b), got, targets[cls]((a, b)), tol_dbl, mpf,
+                                 dict(function=f, requested=[a, b], note='not a tabulated key'))
+    for f, cls, deg in (('gauss_sqrtinv_quadrature_rule', 'w=1/sqrt', lambda N: 2 * N - 1),
+                        ('gauss_x_quadrature_rule', 'w=x', lambda N: 2 * N - 1),
+                        ('gauss_log_quadrature_rule', 'w=-log', lambda N: 2 * N - 1)):
+        tab = set(e['key'][0] for e in fams.get(f, []))
+        for N in range(0, 2 * hi):
+            if N in tab:
+                continue
+            res.count(('sweep', f, N), False)
+            try:
+                got = getattr(QR, f)(N)
+            except Exception:
+                refused += 1
+                continue
+            returned += 1
+            _check_requested(res, 'C05:request-inexact:%s:%d' % (f, N), got, targets[cls]((max(deg(N), 0), )), tol_dbl, mpf,
+                             dict(function=f, requested=[N], note='not a tabulated key'))
+    # the scheme constructors on every degree of the grid (they map a degree to a key)
+    for ctor, cls in (('log_quadrature_scheme', 'log'), ('log_log_quadrature_scheme', 'loglog'),
+                      ('sqrt_quadrature_scheme', 'sqrt'), ('sqrtinv_quadrature_scheme', 'sqrtinv')):
+        for a in range(0, hi, 1):
+            for b in range(0, hi, 1):
+                if (ctor, (a, b), cls) in reqset:
+                    continue
+                try:
+                    sch = getattr(Q, ctor)(a, b)
+                except Exception:
+                    refused += 1
+                    continue
+                returned += 1
+                _check_requested(res, 'C05:constructor-inexact:%s:%d_%d' % (ctor, a, b), (sch.points, sch.weights),
+                                 targets[cls]((a, b)), tol_dbl, mpf, dict(constructor=ctor, requested=[a, b]))
+    for ctor, cls in (('gauss_sqrtinv_quadrature_scheme', 'w=1/sqrt'), ('gauss_x_quadrature_scheme', 'w=x'),
+                      ('gauss_log_quadrature_scheme', 'w=-log'), ('gauss_quadrature_scheme', 'w=1')):
+        for N_poly in range(0, 2 * hi):
+            try:
+                sch = getattr(Q, ctor)(N_poly)
+            except Exception:
+                refused += 1
+                continue
+            returned += 1
+            _check_requested(res, 'C05:constructor-inexact:%s:%d' % (ctor, N_poly), (sch.points, sch.weights),
+                             targets[cls]((N_poly, )), tol_dbl, mpf, dict(constructor=ctor, requested=[N_poly]))
+    res.bump('sweep_requests_refused', refused)
+    res.bump('sweep_requests_returned', returned)
+
+
+def _check_requested(res, key, got, classes, tol, mpf, info):
+    """a rule handed out for a request must be well-formed and exact for the requested class"""
+    if got is None or len(got) != 2:
+        res.violation(key.replace('inexact', 'returns-nothing'), dict(info, observed=repr(got)[:80]))
+        return
+    xs = [mpf(float(x)) for x in got[0]]
+    ws = [mpf(float(w)) for w in got[1]]
+    if len(xs) != len(ws) or not xs or not all(0 < x < 1 for x in xs) or not (all(w > 0 for w in ws) or all(w < 0 for w in ws)):
+        res.violation(key.replace('inexact', 'malformed'), dict(info, n_nodes=len(xs), n_weights=len(ws)))
+        return
+    for kmax, fun, exact in classes:
+        for k in range(0, kmax + 1):
+            v = sum(w * fun(x, k) for x, w in zip(xs, ws))
+            if abs(v - exact(k)) > tol * abs(exact(k)):
+                res.violation(key, dict(info, degree=k, relative_defect=str(abs(v - exact(k)) / abs(exact(k))), n_nodes=len(xs)))
+                return
